@@ -33,6 +33,7 @@ type proxy struct {
 type pair struct {
 	c, s net.Conn
 	once sync.Once
+	seq  int // accept order
 }
 
 func newProxy(target string) (*proxy, error) {
@@ -74,7 +75,7 @@ func (p *proxy) serve(ln net.Listener) {
 			c.Close()
 			continue
 		}
-		pr := &pair{c: c}
+		pr := &pair{c: c, seq: p.accepted}
 		p.pairs[pr] = struct{}{}
 		p.open++
 		p.accepted++
